@@ -131,6 +131,12 @@ func main() {
 		workerMarker, _ = os.OpenFile(mf, os.O_RDWR|os.O_CREATE, 0o644)
 	}
 	budget := 75 * time.Second
+	if id == "C06" {
+		budget = 150 * time.Second // 8 harnesses x configurations x two builds: about 60 s on an idle 16-core machine
+	}
+	if id == "C19" || id == "C20" {
+		budget = 120 * time.Second
+	}
 	if tier == "thorough" {
 		budget = 14 * time.Minute
 	}
